@@ -54,8 +54,16 @@ class FalsyVertex(Vertex):
     def __len__(self):
         return 0
 
+class NamedVertex(Vertex):
+    """a Vertex subclass whose str() differs from its repr()"""
+    def __str__(self):
+        return "named-vertex"
+
 class HarnessFault(Exception):
     """raised by a user call-back at its injected fault point"""
+
+class HarnessInterrupt(BaseException):
+    """a fault that is not an Exception subclass (like KeyboardInterrupt or a cancellation)"""
 '''
 
 
